@@ -46,6 +46,12 @@ def run(pid, tier, seed):
     mcs = [vlib.mc_or_die("MC_ClusterAuth", "MC_ClusterAuth_cookie.cfg", workers=4, timeout=300),
            vlib.mc_or_die("MC_ClusterAuth", "MC_ClusterAuth_nocookie.cfg", workers=4, timeout=300, expect_actions=["Open", "Recv"]),
            vlib.mc_or_die("MC_ClusterAuth", "MC_ClusterAuth_pair.cfg", workers=4, timeout=600)]
+    # the named deviation must be reachable in the model exactly where it is claimed: with relaying, a peer
+    # without the cookie authenticates (expected violation of NoCookieNoAuth)
+    refl = vlib.tlc_mc("MC_ClusterAuth", "MC_ClusterAuth_reflect.cfg", workers=4, timeout=600)
+    log("[M] MC_ClusterAuth MC_ClusterAuth_reflect.cfg (deviation DigestReflection): violated=%s (expected NoCookieNoAuth)" % refl["violated"])
+    if refl["violated"] != "NoCookieNoAuth":
+        raise vlib.ToolError("MC_ClusterAuth_reflect.cfg: expected NoCookieNoAuth to be violated, got %s" % refl["violated"])
     for m in mcs:
         if m["violated"]:
             log(m["tail"])
@@ -54,16 +60,18 @@ def run(pid, tier, seed):
             raise vlib.ToolError("vacuity: actions never taken in %s: %s" % (m["cfg"], m["zero_actions"]))
     w = vlib.workdir("clusterauth_" + pid)
     parts = {}
-    for fam in ("auth1", "auth2"):
+    for fam in ("auth1", "auth2", "auth-reflect"):
         tr = os.path.join(w, fam + ".ndjson")
         summ = vlib.harness([fam, "--out", tr, "--tier", tier, "--seed", seed])
         if summ.get("bad_runs"):
             log("[V] %s: %d runs did not finish their script" % (fam, summ["bad_runs"]))
             raise vlib.ToolError("%s: %d runs did not finish their script" % (fam, summ["bad_runs"]))
-        vb = vlib.validate_batch("Trace_ClusterAuth", "Trace_ClusterAuth.cfg", tr, fam + "_" + pid)
-        log("[V] %s: %d runs, %d events, strict accepted %d, rejected %d (%.0fs)" % (
-            fam, vb["runs"], vb["events"], vb["strict_accepted"], len(vb["violations"]), vb["wall_s"]))
+        vb = vlib.validate_batch("Trace_ClusterAuth", "Trace_ClusterAuth.cfg", tr, fam.replace("-", "") + "_" + pid)
+        log("[V] %s: %d runs, %d events, strict accepted %d, rejected %d, deviations %s (%.0fs)" % (
+            fam, vb["runs"], vb["events"], vb["strict_accepted"], len(vb["violations"]), vb["deviations"], vb["wall_s"]))
         _viols(v, vb, fam)
+        for name, n in vb["deviations"].items():
+            v.deviation(name, n, {"deviation": name, "runs": n, "family": fam})
         parts[fam] = (summ, vb)
     if parts["auth2"][0].get("authenticated_runs", 0) == 0 or parts["auth1"][0].get("reached_ok", 0) == 0:
         raise vlib.ToolError("vacuity: no run completed the handshake")
@@ -79,13 +87,16 @@ def run(pid, tier, seed):
                 "random sequences of length 8. auth2: one evaluation = one adversary script (every sequence of length <= 3 over the 33-symbol "
                 "alphabet for both roles, with and without the cookie where a digest is involved; sampled length 4; honest handshake followed by "
                 "every control/node message and pairs; random longer ones) against a real NodeSession, random poll order; "
-                "non-trivial (auth2) = the session authenticated or closed",
+                "non-trivial (auth2) = the session authenticated or closed. auth-reflect: two sessions (server-side + client-side) and an "
+                "adversary without the cookie that relays the node's own digest between them, in the order that works and in orders that cannot",
         "parts": {k: {"runs": s["runs"], "events": x["events"], "strict_accepted_runs": x["strict_accepted"],
                       "divergences": len(x["divergences"]), "rejected_runs": len(x["violations"]), "tlc_trace_states": x["tlc_states"],
                       "distinct": s.get("distinct")} for k, (s, x) in parts.items()},
         "level1_sequences": parts["auth1"][0].get("sequences"),
         "level1_reached_ok": parts["auth1"][0].get("reached_ok"),
         "level2_authenticated_runs": parts["auth2"][0].get("authenticated_runs"),
+        "deviation_runs": {k: x["deviations"] for k, (s, x) in parts.items() if x["deviations"]},
+        "mc_expected_violation": {"cfg": "MC_ClusterAuth_reflect.cfg", "invariant": refl["violated"], "states": refl["states"]},
         "mc_configs": [{"cfg": m["cfg"], "states": m["states"], "transitions": m["transitions"], "wall_s": m["wall_s"]} for m in mcs],
         "exhaustive": False,
     }
